@@ -165,7 +165,7 @@ fn exhaustive_level_depths(name: &str, tie: bool) -> Part<Case> {
     let depths: Vec<usize> = if tie { level_depths().into_iter().filter(|d| *d <= 200 || *d == 256 || *d == 512).collect() } else { level_depths() };
     let n_d = depths.len() as u64;
     const BEHIND: [usize; 3] = [0, 1, 3];
-    const KINDS: u64 = 6;
+    const KINDS: u64 = 7;
     let total = n_d * 3 * 2 * KINDS;
     Part {
         name: name.to_string(),
@@ -204,12 +204,14 @@ fn exhaustive_level_depths(name: &str, tie: bool) -> Part<Case> {
                     2 => Op::CreatePlace { bid: agg_bid, vol: sum + 1, trader: 9, price: Some(p2) },
                     3 => Op::CreatePlace { bid: agg_bid, vol: sum, trader: 9, price: None },
                     4 => Op::CreatePlace { bid: agg_bid, vol: sum + 1, trader: 9, price: None },
-                    _ => Op::Modify { r: exact_ref(0), price: Some(p1), vol: Some(sum) },
+                    5 => Op::Modify { r: exact_ref(0), price: Some(p1), vol: Some(sum) },
+                    // exactly the level's volume, but priced through to the level behind
+                    _ => Op::CreatePlace { bid: agg_bid, vol: sum, trader: 9, price: Some(p2) },
                 });
                 Some(Case::Book(case_of(ops, tie, true, 3)))
             }),
             description: format!(
-                "{}every queue depth d in 1..=260 and around 384, 512, 768, 1024 ({} depths) x {{0, 1, 3}} orders on the level behind x aggressor side x 6 aggressors (limit for exactly the level's volume, limit for more at the level's price, limit through to the next level, market for the level's volume, market for one more, resting order re-priced onto the level), then the drain probe",
+                "{}every queue depth d in 1..=260 and around 384, 512, 768, 1024 ({} depths) x {{0, 1, 3}} orders on the level behind x aggressor side x 7 aggressors (limit for exactly the level's volume at its price and priced through to the next level, limit for more at the level's price, limit through to the next level, market for the level's volume, market for one more, resting order re-priced onto the level), then the drain probe",
                 if tie { "(whole level queued at one timestamp; depths up to 200 and 256, 512) " } else { "" },
                 n_d
             ),
@@ -405,6 +407,7 @@ pub fn parts(id: &'static str, tier: Tier) -> Vec<Part<Case>> {
                     false,
                 ));
             }
+            parts.push(exhaustive_level_depths("exhaustive-level-depths", false));
             let mut c = GenCfg::base(len);
             c.redundant_skew = true;
             c.w_modify = 14;
